@@ -120,7 +120,7 @@ def run(tier, replay=None):
                 cases.append(mk(iid, b, inp, max(1, n - 1), 1, dirty))
                 cases.append(mk(iid, b, inp, 10, 1, dirty))
         history = []; recs = []
-        imgwords = {}
+        imgwords = {}; nimg = {}
         for iid, b, inp, s in images:
             hdr = struct.unpack('<I', b[:4])[0]
             ws = []
@@ -129,6 +129,7 @@ def run(tier, replay=None):
                 if w:
                     ws.append([k, w])
             imgwords[iid] = ws
+            nimg[iid] = hdr
         for perturb in (None, 85, 170):
             res = sim(cases, perturb, "p2_%s" % perturb)
             for c, r in zip(cases, res):
@@ -143,7 +144,7 @@ def run(tier, replay=None):
                     text = bytes.fromhex(r['text'])
                     obs = {'status': r['status'], 'ret': r['ret'], 'steps': r['steps'], 'rd': r['rd'], 'fout': r['fout'],
                            'out': [[0, x] for x in text] if not c['trace'] else [], 'calls': parse_calls(text.decode('latin-1')) if c['trace'] else []}
-                    recs.append({'id': key + "|d%d" % c['dirty'], 'img': imgwords[c['id']], 'input': list(bytes.fromhex(c['input'])), 'traced': bool(c['trace']), 'obs': obs})
+                    recs.append({'id': key + "|d%d" % c['dirty'], 'img': imgwords[c['id']], 'imgwords': nimg[c['id']], 'input': list(bytes.fromhex(c['input'])), 'traced': bool(c['trace']), 'obs': obs})
         # executables: xrun against xcmp + hexsim for the programs that read what they never wrote
         tdir = corpus.tools()
         nexe = 0
